@@ -59,9 +59,6 @@ Proof.
         rewrite H2, H3, !map_app; simpl. rewrite <- !app_assoc; simpl; auto.
 Qed.
 
-Definition wf_registry (an : action_names) : Prop :=
-  NoDup (map fst (action_dict an)) /\ map a_name (map snd (action_dict an)) = map fst (action_dict an).
-
 Lemma NoDup_map_filter {A B} (f : A -> B) (p : A -> bool) : forall l, NoDup (map f l) -> NoDup (map f (filter p l)).
 Proof.
   induction l as [|x l IH]; simpl; intros ND; [constructor|].
@@ -224,12 +221,13 @@ Proof.
   cbn [step]. rewrite E. cbn [snd]. now rewrite R4.
 Qed.
 
-(* weights.py: finite num_samples >= 1 with threshold 1/num_samples <= smallest probability: the all-exact branch *)
-Lemma finite_exact_threshold : forall a n p, smallest_probability O a = Some p -> (1 / n <= p)%Q ->
-  reaches_sampler O a (NFin n) = false.
+(* weights.py: finite num_samples >= 1 whose threshold 1/num_samples lies below the smallest probability by the rounding
+   margin: the all-exact branch *)
+Lemma finite_exact_margin : forall a n p, smallest_probability O a = Some p ->
+  (1 / n * (1 + float_margin) <= p)%Q -> reaches_sampler O a (NFin n) = false.
 Proof.
   intros a n p Hp H. unfold reaches_sampler. destruct (negb (ns_valid (NFin n))); [reflexivity|]. rewrite Hp.
-  assert (E : Qle_bool (threshold (NFin n)) p = true) by (apply Qle_bool_iff; exact H).
+  assert (E : clearly_all_exact (threshold (NFin n)) p = true) by (apply Qle_bool_iff; exact H).
   now rewrite E.
 Qed.
 
@@ -250,10 +248,7 @@ Proof.
 Qed.
 
 (* histories made of calls of the three classes only: the whole state is invariant *)
-Definition exact_event (e : event O) : bool :=
-  match e with Call c => exact_class O c | Perturb _ _ => false end.
-
-Lemma run_exact_state : forall h g, forallb exact_event h = true -> run O g h = g.
+Lemma run_exact_state : forall h g, forallb (exact_event O) h = true -> run O g h = g.
 Proof.
   induction h as [|e h IH]; intros g H; simpl in *; [reflexivity|].
   apply andb_prop in H as [H1 H2]. unfold run in *; simpl.
@@ -275,7 +270,8 @@ Lemma exact_never_samples : forall a, reaches_sampler O a NInf = false.
 Proof.
   intros a; unfold reaches_sampler; simpl.
   destruct (smallest_probability O a) as [p|] eqn:E; [|reflexivity].
-  assert (E' : Qle_bool 0 p = true) by (apply Qle_bool_iff; exact (prod_min_nonzero_nonneg _ _ E)).
+  assert (E' : clearly_all_exact 0 p = true).
+  { apply Qle_bool_iff. rewrite Qmult_0_l. exact (prod_min_nonzero_nonneg _ _ E). }
   now rewrite E'.
 Qed.
 
